@@ -32,6 +32,20 @@ def _raising(spec: dict, rng) -> dict:
     return spec
 
 
+def _cancel_reporting(spec: dict, rng) -> dict:
+    """user cancellation while a gated step is in flight that reports on the stream from its cancellation path
+    (`except CancelledError: ctx.write_event_to_stream(..); raise`): nothing may follow the WorkflowCancelledEvent"""
+    gated = [s for s in spec["steps"] if any(a[0] in ("gate", "sleep") for a in s["script"]) and s.get("role") != "handler"]
+    if not gated:
+        return spec
+    for s in rng.sample(gated, min(len(gated), rng.randint(1, 2))):
+        if not any(a[0] == "on_cancel_stream" for a in s["script"]):
+            s["script"].insert(0, ["on_cancel_stream", rng.choice([5, 6, 7, 8, 9])])
+    spec["externals"] = [e for e in spec.get("externals", []) if e.get("op") != "cancel"] + [{"op": "cancel", "after_quiet": rng.randint(0, 4)}]
+    spec.pop("timeout", None)
+    return spec
+
+
 def _reuse_runs(env: Env, out: Outcome, n: int) -> None:
     """histories of 2..3 runs on one runtime that reuse an explicit run_id (earlier handlers kept or dropped, their streams
     unread / partly read): the last run is refused or is a run of its own (own events only, one matching terminal event, last)"""
@@ -60,5 +74,6 @@ def run(env: Env) -> Outcome:
     suite.direct_corr(env, out, env.budget(3000, 60000))
     suite.live_runs(env, out, env.budget(400, 8000), [monitors.mon_c04], extra_specs=suite.load_corpus("C04"),
                     mutate_spec=_raising)
+    suite.live_runs(env, out, env.budget(120, 2400), [monitors.mon_c04], mutate_spec=_cancel_reporting)
     _reuse_runs(env, out, env.budget(150, 3000))
     return out
